@@ -25,6 +25,11 @@ fn dec(g: &str, form: &str, b: &[u8], cls: &str) -> Value {
     json!({"op": "decode", "g": g, "form": form, "bytes": bytes_to_j(b), "cls": cls})
 }
 
+fn fr_rr() -> [u64; 4] {
+    let p = fr_info().p;
+    [p[0], p[1], p[2], p[3]]
+}
+
 fn affine_pool<G: Grp>(r: &mut Rng, seed: u64) -> Vec<(G::Affine, &'static str)>
 where
     G::Base: J,
@@ -44,7 +49,11 @@ where
 {
     let g = G::NAME;
     let fq = fq_info();
-    let pool = affine_pool::<G>(r, seed);
+    let mut pool = affine_pool::<G>(r, seed);
+    // valid points with a coordinate in the top sliver below q / with a zero leading byte
+    for (p, c) in extreme_coord_points::<G>(seed, if g == "G1" { 400_000 } else { 300_000 }, 1) {
+        pool.push((p.into_affine(), c));
+    }
     let lc = <<G::Affine as CurveAffine>::Compressed as EncodedPoint>::size();
     let lu = <<G::Affine as CurveAffine>::Uncompressed as EncodedPoint>::size();
     let per = if g == "G1" { 12 } else { 5 };
@@ -230,6 +239,28 @@ where
         acc.add_assign(&G::one());
         pts.push((acc, "small-multiple-proj"));
     }
+    // identities in non-canonical projective form: from arithmetic (P - P, [r]P, P + (-P) mixed) and
+    // with arbitrary X, Y
+    {
+        let base = pts[4].0;
+        let mut a = base;
+        a.sub_assign(&base);
+        let mut b = base;
+        let mut nb = base;
+        nb.negate();
+        b.add_assign_mixed(&nb.into_affine());
+        let mut c = base;
+        c.mul_assign(pairing::bls12_381::FrRepr(fr_rr()));
+        let mut d = base;
+        d.double();
+        let mut nd = base;
+        nd.negate();
+        nd.double();
+        d.add_assign(&nd);
+        for (k, idp) in [a, b, c, d].iter().enumerate() {
+            ops.push(json!({"op": "encode", "g": g, "pj": proj_to_j(idp), "cls": format!("identity-from-arithmetic-{}", k)}));
+        }
+    }
     for (i, (p, cls)) in pts.iter().enumerate() {
         let op = if i % 2 == 0 {
             json!({"op": "encode", "g": g, "pj": proj_to_j(p), "cls": cls})
@@ -380,6 +411,22 @@ where
         let pts: Vec<Value> = (0..3).map(|_| aff_to_j(&G::random(&mut rng).into_affine())).collect();
         let ks: Vec<Value> = (0..3).map(|_| nat(&rand_scalar_bits(r, 255))).collect();
         push(&mut ops, json!({"op": "prod", "g": g, "fn": "msm", "points": pts, "scalars": ks, "cls": "producer-msm"}));
+        // identities among the bases (first, in the middle, several), all-ones and random scalars, the
+        // default entry with enough bases for a larger window and explicit windows of every kind
+        {
+            let zero = G::zero().into_affine();
+            let n = if i % 2 == 0 { 21 } else { 5 };
+            let mut pts: Vec<Value> = (0..n).map(|_| aff_to_j(&G::random(&mut rng).into_affine())).collect();
+            pts[0] = aff_to_j(&zero);
+            pts[n / 2] = aff_to_j(&zero);
+            if i % 3 == 0 {
+                pts[1] = aff_to_j(&zero);
+            }
+            let mut ks: Vec<Value> = (0..n).map(|_| nat(&rand_scalar_bits(r, 255))).collect();
+            ks[0] = nat(&w_ones(255, 4));
+            push(&mut ops, json!({"op": "prod", "g": g, "fn": "msm", "points": pts, "scalars": ks,
+                                  "windows": [1, 3, 5, 6, 7, 9, 13], "cls": "producer-msm-with-identities"}));
+        }
         // precomputation tables of a subgroup point and of the identity (reached as P - P as well)
         let base = match i % 3 { 0 => G::zero(), 1 => { let mut t = p; t.sub_assign(&p); t }, _ => p };
         let idx: Vec<u64> = vec![0, 1, 2, 128, 255, r.below(256), r.below(256)];
